@@ -547,3 +547,45 @@ contract(
     modifies=None,
     properties=[],      # not run: 6 call-site obligations stay undecided behind the parser interface's havoc (DESIGN 8)
 )
+
+# ---- ElementProxy: the by-name view handed out by ElementList.get (C10 "lookup by name ... len ... agree")
+contract('hl7apy.core:ElementProxy.__len__', sig={'self': 'ElementProxy'}, returns='int',
+         ensures=[('by_name_count', 'result == (idx_len(self.element_list, self.element_name) '
+                                    'if idx_has(self.element_list, self.element_name) else 0)')],
+         raises={}, raises_only=[], modifies=[], properties=['C10', 'C11'])
+contract('hl7apy.core:ElementProxy.__getitem__', sig={'self': 'ElementProxy', 'index': 'int'}, returns='Element',
+         requires=['sep(self.element_list)'],
+         ensures=[('by_name_item', 'idx_has(self.element_list, self.element_name) and '
+                                   'result is idx_item(self.element_list, self.element_name, '
+                                   'index if index >= 0 else index + idx_len(self.element_list, self.element_name))')],
+         raises={'IndexError': {'when': 'not idx_has(self.element_list, self.element_name) or '
+                                        'index >= idx_len(self.element_list, self.element_name) or '
+                                        'index < -idx_len(self.element_list, self.element_name)', 'modifies': []}},
+         raises_only=['IndexError'], modifies=[], properties=['C10', 'C11'])
+
+# del x.<name>[i]  (C09 "deletion removes exactly the addressed one"): the addressed repetition T = the i-th entry of the
+# by-name index leaves the positional list (first occurrence of T, the entries before and after keep their order) and
+# nothing else moves; an index out of range raises IndexError with the view untouched (C12)
+_EL = 'self.element_list'
+_NM = 'self.element_name'
+_T = 'old(idx_item(%s, %s, index if index >= 0 else index + idx_len(%s, %s)))' % (_EL, _NM, _EL, _NM)
+_OOR = ('not idx_has(%s, %s) or index >= idx_len(%s, %s) or index < -idx_len(%s, %s)' % ((_EL, _NM) * 3))
+contract(
+    'hl7apy.core:ElementProxy.__delitem__',
+    sig={'self': 'ElementProxy', 'index': 'int'},
+    returns='none',
+    requires=['sep(%s)' % _EL],
+    ensures=[
+        ('sep', 'sep(%s)' % _EL),
+        ('addressed_one_removed',
+         'implies(%s._traversal_parent is not %s.element, %s)'
+         % (_T, _EL, removed_first_of('%s.list' % _EL, '%s.list' % _EL, _T))),
+        ('indexes_keys_kept', 'implies(%s._traversal_parent is not %s.element, dict_unchanged(%s.indexes) and '
+                              'dict_unchanged(%s.traversal_indexes))' % (_T, _EL, _EL, _EL)),
+    ],
+    raises={'IndexError': {'when': _OOR, 'must': _OOR, 'modifies': []},
+            'ValueError': {'ensures': [('list_kept', 'list_unchanged(%s.list)' % _EL)]}},
+    raises_only=['IndexError', 'ValueError'],
+    modifies=None,
+    properties=['C09', 'C12'],
+)
